@@ -24,6 +24,15 @@ CLAIMED = {
         "bit-for-bit claim rests on R2's structural argument (factor f / dyadic constants). OpenCL kernels not analysed.",
    ref="DESIGN.md §3 C02"),
 }
+CLAIMED["C08"] = dict(cat="other", technique="writer/reader index-map agreement and fill-extent analysis over the clang AST (symbolic index polynomials)",
+   text="Decides, for every bunch count B, grid size N and interpolation order, that each table and grid index used by the transport code "
+        "splits into a bunch part and an in-bunch part that agree between writer and reader: KickMap::apply reads for bunch n exactly the "
+        "source-map rows updateSM wrote for bunch min(n,_lastbunch); every KickMap subclass fills as many offset rows as its _lastbunch makes "
+        "the reader consume (RF: one shared set; wake: B sets); source and destination cells carry the same bunch offset n*N*N in KickMap, "
+        "FokkerPlanckMap and Identity. Exhaustive over the index sites; this is the structural reason bunches cannot influence each other in transport.",
+   note="Trusted: clang front end, isa-extract, sympy. CPU path only. Found and repaired two genuine defects (see known_findings.json 'fixed'). "
+        "Does not decide numerical bit-identity beyond identical index/arithmetic shape per bunch.",
+   ref="DESIGN.md §3 C08")
 NOT_YET = "check not built yet in this round (static rule designed in DESIGN.md §3, not implemented)"
 NA = {}
 
